@@ -27,6 +27,19 @@ fn main() {
     } else {
         println!("selftest hooks: ok");
     }
+    match world::selftest() {
+        Ok((n, a)) => println!("selftest world: ok ({n} states round-tripped, U_A quick = {a})"),
+        Err(e) => {
+            println!("selftest world: FAILED {e}");
+            fails.push("world");
+        }
+    }
+    let (b, raw) = world::spec_u_b(0).enumerate();
+    println!("U_B quick = {} (raw {raw})", b.len());
+    let (a1, raw) = world::spec_u_a(1).enumerate();
+    println!("U_A thorough = {} (raw {raw})", a1.len());
+    let (b1, raw) = world::spec_u_b(1).enumerate();
+    println!("U_B thorough = {} (raw {raw})", b1.len());
     if !fails.is_empty() {
         println!("MACHINERY-ERROR selftest failed: {fails:?}");
         std::process::exit(2);
